@@ -43,10 +43,16 @@ def run(ctx):
     w = np.ones(m) if i % 3 == 0 else rng.uniform(0.1, 3.0, size=m) * 10.0 ** int(rng.integers(-3, 4))
     w = w / w.sum()
     est.w_ = w.copy()
-    with warnings.catch_warnings():
-      warnings.simplefilter('ignore')
-      loss = est._total_loss(M, vab, vcd, P)
-      grad = est._gradient(M, vab, vcd, P)
+    try:
+      with warnings.catch_warnings():
+        warnings.simplefilter('ignore')
+        loss = est._total_loss(M, vab, vcd, P)
+        grad = est._gradient(M, vab, vcd, P)
+    except TypeError as ex:
+      # the private functions no longer have the signature the model was written from: their correspondence cannot be run
+      # (the fits below still are); once is enough
+      ctx.break_tie('correspondence', 'c12_loss_grad', '_total_loss / _gradient cannot be called as (metric, vab, vcd, prior_inv): %s' % str(ex)[:200])
+      break
     sign, logdet = np.linalg.slogdet(M)
     Minv = np.linalg.inv(M)
     # skip cases where a hinge test is within rounding of its boundary
@@ -61,7 +67,8 @@ def run(ctx):
     recs.append(dict(M=M, P=P, vab=vab, vcd=vcd, w=w, loss=loss, grad=grad))
     ctx.seen(('lg', M.tolist(), vab.tolist(), w.tolist()), bool(np.any(dab > dcd)))
     ctx.hist('weights', 'uniform' if i % 3 == 0 else 'non-uniform')
-  ctx.sample(dict(M=recs[0]['M'].tolist(), vab=recs[0]['vab'].tolist(), w=recs[0]['w'].tolist(), impl_loss=recs[0]['loss']))
+  if recs:
+    ctx.sample(dict(M=recs[0]['M'].tolist(), vab=recs[0]['vab'].tolist(), w=recs[0]['w'].tolist(), impl_loss=recs[0]['loss']))
 
   def falsify_lg(rec):
     """finite differences of the independent objective vs the implementation's gradient; weights must matter"""
@@ -257,6 +264,27 @@ def run(ctx):
     if ec.n_iter_ < 1000 and not gnc < 1.5 * 1e-3:
       ctx.fail_input('stationary', 'stopped before max_iter at a point that is not stationary (few consistent comparisons: the iterate satisfies them all, the LogDet term is not at rest)',
                      inp, observed=dict(n_iter=int(ec.n_iter_), grad_norm=gnc))
+  # ---- a handful of strongly violated comparisons between points in raw units (scale 10 .. 100), priors s * I: the first
+  # accepted steps are large (candidates at the eigenvalue floor can be accepted); a run that stops before max_iter is stationary
+  for sd, d_r, scale_r, s_r, tol_r in ((2, 2, 10.0, 1.0, 1e-3), (2, 2, 30.0, 0.1, 1e-3), (1, 2, 100.0, 0.1, 1e-1), (5, 3, 100.0, 0.1, 1e-3)):
+    rs = np.random.RandomState(sd)
+    Xr = scale_r * rs.randn(12, d_r)
+    Qr = Xr[np.array([rs.permutation(12)[:4] for _ in range(4)])]
+    Pr = s_r * np.eye(d_r)
+    ctx.count('raw_units', 1)
+    inp = dict(quadruplets=Qr.tolist(), prior='%g * I' % s_r, tol=tol_r, max_iter=5000)
+    try:
+      with warnings.catch_warnings():
+        warnings.simplefilter('ignore')
+        er = LSML(prior=Pr, tol=tol_r, max_iter=5000).fit(Qr)
+      Mr = er.get_mahalanobis_matrix()
+    except Exception as ex:
+      ctx.fail_input('fit_runs', 'LSML on raw-unit comparisons raises %s' % type(ex).__name__, inp, observed=str(ex)[:200])
+      continue
+    gr = float(np.linalg.norm(doc_grad_prior(Mr, np.eye(d_r) / s_r, Qr[:, 0] - Qr[:, 1], Qr[:, 2] - Qr[:, 3], np.ones(4) / 4)))
+    if er.n_iter_ < 5000 and not gr < 1.5 * tol_r:
+      ctx.fail_input('stationary', 'stopped before max_iter at a point that is not stationary (few strongly violated comparisons between points in raw units)',
+                     inp, observed=dict(n_iter=int(er.n_iter_), grad_norm=gr))
   cases = [(sd, d, 1.0, tol) for sd in (0, 1, 2) for d in (3, 4) for tol in (1e-5, 1e-6)] + [(0, 4, 30.0, 1e-5)]
   for sd, d, scale, tol in (cases if thorough else cases[1:-1:2] + cases[-1:]):
     Q = scale * np.random.RandomState(sd).randn(40, 4, d)
